@@ -558,7 +558,7 @@ fn run_script(script: &[&str], n: usize) {
                     let part = geti(&kv, "part");
                     let page = geti(&kv, "page") as usize;
                     let f = dir.join(format!("foyer-storage-direct-fs-{part:08}"));
-                    let mut data = std::fs::read(&f).unwrap();
+                    let mut data = std::fs::read(&f).unwrap_or_default();
                     let kind = gets_d(&kv, "kind", "zero").to_string();
                     let range = page * PAGE..(page + 1) * PAGE;
                     if range.end <= data.len() {
@@ -573,7 +573,9 @@ fn run_script(script: &[&str], n: usize) {
                             let (p2, g2) = rest.split_once(':').unwrap();
                             let f2 = dir.join(format!("foyer-storage-direct-fs-{:08}", p2.parse::<u32>().unwrap()));
                             let g2: usize = g2.parse().unwrap();
-                            if f2 == f {
+                            if !f2.exists() || (g2 + 1) * PAGE > std::fs::metadata(&f2).map(|m| m.len() as usize).unwrap_or(0) {
+                                // nothing to swap with
+                            } else if f2 == f {
                                 let a: Vec<u8> = data[range.clone()].to_vec();
                                 let b: Vec<u8> = data[g2 * PAGE..(g2 + 1) * PAGE].to_vec();
                                 data[range].copy_from_slice(&b);
